@@ -122,6 +122,10 @@ const RFC_VECTORS: [(&str, &str); 7] = [
 pub struct Piece {
     pub len: u16,
     pub all: bool,
+    /// call `flush()` on the encoder after this piece (a flush hands on what is complete; it
+    /// cannot make the text anything other than the RFC 4648 text of all the bytes written)
+    #[serde(default)]
+    pub flush: bool,
 }
 
 #[derive(Clone, Debug, PartialEq, Eq, Serialize, Deserialize)]
@@ -212,9 +216,9 @@ struct EncodeRun {
 /// Materialise the write partition of `n` bytes: the piece list is applied cyclically; the
 /// whole list is issued at least once (so empty writes after the last byte happen too); a
 /// cycle that makes no progress is followed by one write of the remainder.
-fn partition(n: usize, pieces: &[Piece]) -> Vec<(usize, usize, bool)> {
+fn partition(n: usize, pieces: &[Piece]) -> Vec<(usize, usize, bool, bool)> {
     if pieces.is_empty() {
-        return vec![(0, n, true)];
+        return vec![(0, n, true, false)];
     }
     let mut plan = Vec::new();
     let mut pos = 0usize;
@@ -226,7 +230,7 @@ fn partition(n: usize, pieces: &[Piece]) -> Vec<(usize, usize, bool)> {
                 break;
             }
             let len = (p.len as usize).min(n - pos);
-            plan.push((pos, pos + len, p.all));
+            plan.push((pos, pos + len, p.all, p.flush));
             pos += len;
         }
         first = false;
@@ -234,7 +238,7 @@ fn partition(n: usize, pieces: &[Piece]) -> Vec<(usize, usize, bool)> {
             break;
         }
         if pos == cycle_start {
-            plan.push((pos, n, pieces[0].all));
+            plan.push((pos, n, pieces[0].all, false));
             break;
         }
     }
@@ -249,9 +253,15 @@ fn run_encoder(data: &[u8], pieces: &[Piece]) -> EncodeRun {
         empty_calls: 0,
         contract: None,
     };
-    for (start, end, all) in partition(data.len(), pieces) {
+    for (start, end, all, flush) in partition(data.len(), pieces) {
         if issue(&mut enc, &data[start..end], all, &mut run) {
             return run;
+        }
+        if flush {
+            if let Err(e) = enc.flush() {
+                run.result = Err(format!("flush: {e}"));
+                return run;
+            }
         }
     }
     run.result = enc.finish().map_err(|e| format!("finish: {e}"));
@@ -368,6 +378,7 @@ fn check_encode(data: &[u8], pieces: &[Piece]) -> Outcome {
         .label(format!("encode/{part}"))
         .label_if(one_byte, "encode/all-1-byte-writes")
         .label_if(run.empty_calls > 0, "encode/has-empty-write")
+        .label_if(pieces.iter().any(|p| p.flush), "encode/flush-between-writes")
         .label_if(pieces.iter().any(|p| !p.all), "encode/uses-write")
         .label_if(pieces.is_empty() || pieces.iter().any(|p| p.all), "encode/uses-write_all"))
 }
@@ -791,10 +802,10 @@ fn pieces() -> BoxedStrategy<Vec<Piece>> {
         2 => 9u16..=70,
         1 => 71u16..=400,
     ];
-    let piece = (plen, any::<bool>()).prop_map(|(len, all)| Piece { len, all });
+    let piece = (plen, any::<bool>(), proptest::bool::weighted(0.08)).prop_map(|(len, all, flush)| Piece { len, all, flush });
     prop_oneof![
         1 => Just(Vec::new()),
-        2 => any::<bool>().prop_map(|all| vec![Piece { len: 1, all }]),
+        2 => any::<bool>().prop_map(|all| vec![Piece { len: 1, all, flush: false }]),
         3 => vec(piece.clone(), 1..=3),
         4 => vec(piece, 4..=24),
     ]
@@ -910,7 +921,7 @@ impl Property for C14 {
         Some(match kind {
             0 => Case::Encode {
                 data: rest,
-                pieces: sched.iter().map(|b| Piece { len: (b >> 1) as u16 % 70, all: b & 1 == 1 }).collect(),
+                pieces: sched.iter().map(|b| Piece { len: (b >> 1) as u16 % 70, all: b & 1 == 1, flush: *b >= 0xe8 }).collect(),
             },
             1 => Case::Decode { data: rest, sched: read_sched, dst },
             2 => Case::Reject { data: rest, edit: Edit::Remove(n as u8 % 3 + 1), sched: read_sched, dst },
@@ -994,7 +1005,7 @@ impl Property for C14 {
             "destination buffers are never empty (a read into an empty buffer returns Ok(0) by contract and says nothing)".into(),
             "rejection: an Err from any read call before the first Ok(0) counts as 'reports an error'; nothing is demanded of the bytes delivered before the error or of the decoder's state after it".into(),
             "arbitrary bytes: only absence of panics is demanded (the decoder is also driven on after errors)".into(),
-            "not covered: non-canonical but valid text (non-zero trailing bits), flush() between writes, failing sinks/readers — the property is silent on them".into(),
+            "a flush() after some of the writes (8% of the pieces) must not change the text: whatever sequence of calls wrote the bytes, finish() yields the RFC 4648 text of all of them; not covered: non-canonical but valid text (non-zero trailing bits), failing sinks/readers — the property is silent on them".into(),
         ]
     }
 
@@ -1015,7 +1026,7 @@ impl Property for C14 {
             sweep_one(sw, Case::Decode { data: plain.as_bytes().to_vec(), sched: vec![], dst: vec![80] })?;
         }
         // exhaustive short strings
-        let one = vec![Piece { len: 1, all: false }];
+        let one = vec![Piece { len: 1, all: false, flush: false }];
         let mut short: Vec<Vec<u8>> = vec![vec![]];
         short.extend((0..=255u8).map(|a| vec![a]));
         for a in 0..=255u8 {
@@ -1045,9 +1056,9 @@ impl Property for C14 {
         // every length x write size / destination size
         let max_len = tier.pick(400usize, 1500usize);
         let mut sizes: Vec<Vec<Piece>> = vec![vec![]];
-        sizes.push(vec![Piece { len: 0, all: false }, Piece { len: 1, all: true }]);
+        sizes.push(vec![Piece { len: 0, all: false, flush: false }, Piece { len: 1, all: true, flush: true }]);
         for p in (1..=8u16).chain(47..=49).chain(63..=65) {
-            sizes.push(vec![Piece { len: p, all: p % 2 == 0 }]);
+            sizes.push(vec![Piece { len: p, all: p % 2 == 0, flush: p % 5 == 0 }]);
         }
         for len in 0..=max_len {
             let d = pattern(seed, len);
